@@ -249,7 +249,7 @@ harnesses! {
     /// @meta props=C02,C05,C17,C06,C04:t,C03:t tier=quick kind=K stage2=pub timeout=1500 mem=12 unwind=12 bounds="fastq::Reader::search (+increment_record) from a record start at every offset of every window (every file offset) of every file <= 9 bytes"
     #[kani::stub(std::string::String::from_utf8_lossy, crate::src::stub_lossy_empty)]
     fqk_search_f9 => k_search_f9;
-    /// @meta props=C02,C17,C12:t,C06:t tier=quick kind=K stage2=pub timeout=1500 mem=12 unwind=12 bounds="fastq::Reader::check_end for every incomplete group at the end of every file <= 9 bytes (blank tail, truncation, last record without terminator)"
+    /// @meta props=C02,C17,C06,C12:t tier=quick kind=K stage2=pub timeout=1500 mem=12 unwind=12 bounds="fastq::Reader::check_end for every incomplete group at the end of every file <= 9 bytes (blank tail, truncation, last record without terminator)"
     #[kani::stub(std::string::String::from_utf8_lossy, crate::src::stub_lossy_empty)]
     fqk_check_end_f9 => k_check_end_f9;
 }
@@ -383,7 +383,10 @@ pub fn k_seek<N: Nd, const F: usize, const CAP: usize>(nd: &mut N) {
     nd.note_num("cap", CAP as u64);
     nd.note_num("seek_target_byte", target as u64);
     let st = FqState { pos0: p - off, pos1: 0, seq: 0, sep: 0, qual: 0, inc, line: line0, byte: p as u64, state };
-    let br = window::<F>(Src::plain(file, n), CAP, off);
+    // the source delivers the first read in one piece (it builds the window), later reads in symbolic chunks
+    let mut src = Src::<F>::chunked(nd, file, n);
+    src.chunk[0] = 0;
+    let br = window::<F>(src, CAP, off);
     let blen = br.buffer().len();
     nd.assume(p - off <= blen);
     let mut r = fq_reader(br, &st);
@@ -432,11 +435,11 @@ pub fn k_seek_f8_c4<N: Nd>(nd: &mut N) {
 
 harnesses! {
     @reg registry2;
-    /// @meta props=C02,C17:t,C06:t,C03:t tier=quick kind=K stage2=pub timeout=1500 mem=12 unwind=12 bounds="fastq::Reader::search_incomplete resumed at each of the 4 lines, every record start in every file <= 9 bytes (window = file)"
+    /// @meta props=C02,C03,C17,C06:t tier=quick kind=K stage2=pub timeout=1500 mem=12 unwind=12 bounds="fastq::Reader::search_incomplete resumed at each of the 4 lines, every record start in every file <= 9 bytes (window = file)"
     #[kani::stub(std::string::String::from_utf8_lossy, crate::src::stub_lossy_empty)]
     fqk_search_incomplete_f9 => k_search_incomplete_f9;
     /// @meta props=C03,C06,C09:t tier=quick kind=K timeout=1500 mem=12 unwind=10 bounds="fastq::Reader::make_room on a full buffer of capacity 6 over every 8-byte file, every resume point and every ordered quadruple of offsets"
     fqk_make_room_f8_c6 => k_make_room_f8_c6;
-    /// @meta props=C05,C06,C04 tier=quick kind=K timeout=1500 mem=12 unwind=10 unwindset="seq_io::fill_buf:3" bounds="fastq::Reader::seek from every state, every window (capacity 4, every file offset) of every file <= 8 bytes to every target byte 0..=n (in-buffer shortcut and real seek + refill)"
+    /// @meta props=C05,C06,C04 tier=quick kind=K timeout=1500 mem=12 unwind=10 unwindset="seq_io::fill_buf:8" bounds="fastq::Reader::seek (source delivering symbolic chunks) from every state, every window (capacity 4, every file offset) of every file <= 8 bytes to every target byte 0..=n (in-buffer shortcut and real seek + refill)"
     fqk_seek_f8_c4 => k_seek_f8_c4;
 }
